@@ -531,6 +531,9 @@ class Exec(CallsMixin):
                 houts = self.exec_block(h.body, hs)
                 for ho in houts:
                     ho.state.vars.pop("__active_exc", None)
+                    if self.opts.get("no_swallow") and ho.sig != "raise" and self.depth == 0:
+                        # ghost: an exception was caught and the handler completed without raising (the failure was swallowed)
+                        ho.state.vars["__swallowed"] = VBool(z3.BoolVal(True))
                 outs.extend(houts)
                 if m is True:
                     caught_all = True
